@@ -329,7 +329,7 @@ def effects_confined(F, rep):
     rep.floor("C13.effects-confined mutating operations judged", n, 6)
 
 
-def index_dispatch(F, rep):
+def index_dispatch(F, rep, rule="C13.index-dispatch"):
     """`x[i]` compiles to a map lookup or to a list access depending on a flag Parser::list_index computes from the type of x (Index.origin_is_map).
     The flag must say `map` exactly when a value of that type is a map at run time -- also when the type is wrapped (a variable captured by a
     closure has type CallbackVariable(T)).  The computation is evaluated abstractly for each container type."""
@@ -365,7 +365,25 @@ def index_dispatch(F, rep):
     if not ty_param:
         raise AnchorMissing("TypeLayout parameter of Parser::list_index")
     T = _hashkeys.Types(F)
-    universe = ["Map", ("Cb", "Map"), ("Open", "Int"), ("Cb", ("Open", "Int")), ("Mixed", ["Int", "Str"]), "Str", ("Cb", "Str"), ("Open", "Map")]
+    universe = ["Map", ("Cb", "Map"), ("Open", "Int"), ("Cb", ("Open", "Int")), ("Mixed", ["Int", "Str"]), "Str", ("Cb", "Str"), ("Open", "Map"),
+                ("Alias", "Map"), ("Cb", ("Alias", "Map")), ("Alias", ("Open", "Int")), ("Alias", "Str")]
+    # a type reaches list_index only if the gate TypeLayout::supports_index lets it be indexed at all: that is evaluated first
+    sup = F.fn("compiler::ast::r#type::TypeLayout::supports_index")
+    if sup is None:
+        raise AnchorMissing("TypeLayout::supports_index")
+
+    def indexable(spec):
+        it0 = Interp(F, models=dict(absint.DEFAULT_MODELS), max_depth=6, max_paths=64)
+        try:
+            outs0 = it0.run(sup, [T.build(spec)])
+        except (ValueError, KeyError):
+            return None
+        names_ = {o.value.name if (o.kind == "return" and isinstance(o.value, Variant)) else "?" for o in outs0}
+        if names_ == {"Some"}:
+            return True
+        if names_ == {"None"}:
+            return False
+        return None
 
     def is_map_at_runtime(spec):
         if spec == "Map":
@@ -374,7 +392,13 @@ def index_dispatch(F, rep):
             return is_map_at_runtime(spec[1])
         return False
     bad, undec, rows = [], [], []
+    n_gate_closed = 0
     for spec in universe:
+        gate = indexable(spec)
+        if gate is False:
+            n_gate_closed += 1
+            rows.append("%s->not indexable" % _hashkeys.show(spec))
+            continue
         def stop(fn_, bb, p, _l=flag):
             fr = p.frames.get(p.stack[-1][0], {})
             if fn_ is li and isinstance(fr.get(_l), Int):
@@ -392,10 +416,10 @@ def index_dispatch(F, rep):
             undec.append(_hashkeys.show(spec))
         else:
             bad.append("`%s` is indexed as a %s" % (_hashkeys.show(spec), "map" if not want else "list"))
-    rep.ob("C13.index-dispatch", "Parser::list_index selects the map lookup exactly for types whose values are maps (also behind a capture wrapper)",
+    rep.ob(rule, "Parser::list_index selects the map lookup exactly for types whose values are maps (also behind a capture wrapper)",
            "violated" if bad else ("undecided" if undec else "ok"), "; ".join(bad) or ("not evaluated: %s" % undec if undec else " ".join(rows)), li.span, fn=li.path,
-           key="C13.index-dispatch|origin_is_map")
-    rep.floor("C13.index-dispatch container types evaluated", len(universe) - len(undec), 6)
+           key=rule + "|origin_is_map")
+    rep.floor(rule + " container types evaluated", len(universe) - len(undec) - n_gate_closed, 6)
 
 
 def values_not_views(F, rep):
